@@ -255,6 +255,18 @@ def fam_unary(tier, route, lo, hi):
             yield call_case('unary', 'LOWER', [v], s)
 
 
+# lower-case letters that LOWER must leave alone (case FOLDING rewrites them:
+# ss, final sigma, micro sign, long s, ligature)
+A_LOWER = ('a', 'ß', 'ς', 'µ', 'ſ', 'ﬁ')
+
+
+def fam_lowerfix(tier, route, lo, hi):
+    for s in gt.texts(3, A_LOWER)[lo:hi]:
+        assert s.lower() == s
+        yield call_case('lowerfix', 'LOWER', [s], s)
+        yield call_case('lowerfix', 'LEN', [s], s)
+
+
 def fam_trim(tier, route, lo, hi):
     for s in trim_texts(tier, route)[lo:hi]:
         yield call_case('trim', 'TRIM', [s], s)
@@ -512,6 +524,7 @@ def fam_cellref(tier, route, lo, hi):
 
 
 FAMILIES = {
+    'lowerfix': fam_lowerfix,
     'unary': fam_unary, 'trim': fam_trim, 'leftright': fam_leftright,
     'mid': fam_mid, 'find': fam_find, 'replace': fam_replace,
     'pair': fam_pair, 'idlr': fam_idlr, 'idml': fam_idml, 'conv': fam_conv,
@@ -547,6 +560,10 @@ def plan(tier):
             for lo in range(start, sizes[fam], step):
                 shards.append({'fam': fam, 'route': route, 'lo': lo,
                                'hi': min(sizes[fam], lo + step)})
+        nlow = gt.count(3, len(A_LOWER))
+        for lo in range(0, nlow, 90):
+            shards.append({'fam': 'lowerfix', 'route': route, 'lo': lo,
+                           'hi': min(nlow, lo + 90)})
         for b, ((nlo, nhi), L) in enumerate(P['find']):
             step = CHUNK['find'][ci]
             if nhi >= 3:
